@@ -472,7 +472,8 @@ impl<'a, RK: RadioKind, C: Probe> Driver<'a, RK, C> {
                 let from = sh.fault_hit.filter(|_| fault_now).unwrap_or(t0).max(t0).max(last_start);
                 let attempted = sh.chip.transcript()[from.min(t1)..t1].iter().any(|x| is_standby_cmd(self.var, &x.mosi));
                 // where the failure came from: the phase the injected fault fell in, or the chip outcome
-                let started_before_fault = matches!(chip_before, Mode::Tx | Mode::Rx | Mode::Cad) || sh.chip.op_starts()[o0..].iter().any(|o| Some(o.txn) < sh.fault_hit || !fault_now);
+                // (for calls that start an operation themselves: "before the start command of this call")
+                let started_before_fault = if call == Call::CompleteRx { true } else { sh.chip.op_starts()[o0..].iter().any(|o| Some(o.txn) < sh.fault_hit || !fault_now) };
                 let cause = match (&res, fault_kind) {
                     (Res::Panic(_, _, k), _) => format!("panic:{}", k),
                     (_, Some(k)) => format!("fault-in:{}{}", fault_phase(self.var, k, &sh.fault_mosi, started_before_fault), if attempted { "|standby-attempted" } else { "" }),
@@ -506,7 +507,7 @@ impl<'a, RK: RadioKind, C: Probe> Driver<'a, RK, C> {
                 let op_ran = !sh.chip.op_starts()[o0..].is_empty() || matches!(chip_before, Mode::Tx | Mode::Rx | Mode::Cad);
                 let judge_driver = matches!(call, Call::Tx | Call::Rx | Call::CompleteRx | Call::Cad) && (op_ran || after != before);
                 if fault_in_recovery {
-                    self.col.event("failed_operations_fault_hit_the_forced_standby(exempt)");
+                    self.col.event("failed_operations_exempt(fault_in_recovery)");
                 } else if !chip_ok {
                     self.col.event("alarm_d_chip");
                     self.found.push(Found {
@@ -955,7 +956,8 @@ impl<'a> Visitor for RunWan<'a> {
                     let last_start = sh.chip.op_starts()[o0..].last().map(|o| o.txn + 1).unwrap_or(t0);
                     let from = sh.fault_hit.filter(|_| fault_now).unwrap_or(t0).max(t0).max(last_start);
                     let attempted = sh.chip.transcript()[from.min(t1)..t1].iter().any(|x| is_standby_cmd(var, &x.mosi));
-                    let started_before_fault = matches!(chip_before, Mode::Tx | Mode::Rx | Mode::Cad) || sh.chip.op_starts()[o0..].iter().any(|o| Some(o.txn) < sh.fault_hit || !fault_now);
+                    let started_before_fault = sh.chip.op_starts()[o0..].iter().any(|o| Some(o.txn) < sh.fault_hit || !fault_now);
+                    let _ = chip_before;
                     let cause = match (&r, fault_now) {
                         (Err(t), _) => format!("panic:{}|{}", t.file(), t.kind()),
                         (_, true) => format!("fault-in:{}{}", fault_phase(var, plan.fault.map(|f| f.kind).unwrap_or(FaultKind::Spi), &sh.fault_mosi, started_before_fault), if attempted { "|standby-attempted" } else { "" }),
@@ -966,7 +968,7 @@ impl<'a> Visitor for RunWan<'a> {
                             || plan.baseline_failed.get(j).copied().unwrap_or(false)
                             || sh.fault_hit == Some(t0));
                     if fault_in_recovery {
-                        col.event("failed_operations_fault_hit_the_forced_standby(exempt)");
+                        col.event("failed_operations_exempt(fault_in_recovery)");
                     } else {
                         col.event("alarm_d_chip");
                         col.violation(
@@ -1102,7 +1104,7 @@ impl Monitor for C14 {
             "clause (b), SX126x: the wake-up access is a GetStatus transaction (or an empty NSS pulse); any other first byte reaching a sleeping chip is a violation and its command is lost (data sheet 9.3 / 13.1.1: the falling edge of NSS wakes the chip, BUSY stays high until it is ready). SX127x: registers are accessible in sleep mode, so only FIFO access and a TX/RX/CAD request while in sleep mode are flagged".into(),
             "clause (c): items = packet type (SX127x: LongRangeMode bit), sync word, regulator mode (boards that use DC-DC: both SX126x boards here), TCXO control (boards with a TCXO: the SX1261 and SX1276 boards here), buffer base addresses, modulation, packet parameters, IRQ/DIO parameters, RF frequency. PA configuration is tracked but not asserted (not listed by the statement). An RSSI listen() only depends on packet type, modulation and frequency; CAD on packet type, modulation, IRQ parameters and frequency".into(),
             "loss of configuration: SX126x on NRESET and on SetSleep without warm start (everything incl. registers; warm start retains everything except the data buffer); SX127x only on NRESET (registers are retained in sleep mode, the FIFO is not). SetPacketType to a different packet type discards modulation and packet parameters (data sheet 13.4.2)".into(),
-            "clause (d) is judged after tx, rx, complete_rx, cad, start_rx, rx_switch_channel and listen returned Err (incl. time-outs) or panicked, unless the call was refused for its mode; the driver-documented exception is honoured: errors of complete_rx/rx while the driver is in continuous receive leave the mode to the caller. A single SPI fault that hits the driver's own SetStandby of the recovery is exempt (nothing can be demanded when the bus fails in the recovery itself)".into(),
+            "clause (d) is judged after tx, rx, complete_rx, cad, start_rx, rx_switch_channel and listen returned Err (incl. time-outs) or panicked, unless the call was refused for its mode; the driver-documented exception is honoured: errors of complete_rx/rx while the driver is in continuous receive leave the mode to the caller. Exempt are double failures, where nothing can be demanded of the recovery: the single injected fault hits the driver's own forced-standby command (or the BUSY wait right after it); the fault falls into a call whose operation fails on the chip's outcome alone in the fault-free run of the same plan; the call fails before it delivered a single transaction (the chip then is in the mode it legitimately had before the call)".into(),
             "clause (d), 'the driver knows it': judged only for tx, rx, complete_rx and cad (the calls the statement's anchors name), as 'driver mode is Standby', and only if an operation was running on the chip during the failed call; when the failure precedes the start command the chip is still in the prepared state that the driver's unchanged Transmit/Receive/CAD mode denotes, which is agreement. 'chip not in standby' and 'chip in standby but driver mode not Standby' carry different signatures".into(),
             "an SPI fault means the transaction never reached the chip; a BUSY fault means the command was delivered and the wait on BUSY failed; an IRQ fault means the wait on the interrupt line failed. Faults where the chip executes a command whose SPI transfer reported an error are not generated".into(),
             "SX126x receive duty cycle: the sleep phases of the chip are not modelled (the chip is treated as awake in RX); SetSleep is accepted from every mode although the data sheet asks for standby; prepare_for_rx(duty) is not generated on SX127x (unsupported, documented)".into(),
